@@ -31,6 +31,7 @@ EXPLANATION = (
     'Round 8: (BACKEND, shared with C01/C11) the pairwise implementation behind the front end keeps its conventions. '
     "Round 8 (engine E9): (EXPAND) the ellipsis rewriting's source is evaluated on a bounded family of equations and compared with numpy's rule. "
     '(INTERLEAVEDEVAL) the interleaved conversion is evaluated on a bounded family of argument tuples. '
+    'Round 9: (CANONALWAYS) the renaming of labels is guarded by the option alone; (INTERLEAVEDEVAL, defect F32) comparable labels are renamed monotonically when the output is implicit. '
 )
 ASSUMPTIONS = ("numpy right-aligns the dimensions an ellipsis stands for and puts them first in an "
                "implicit output",)
